@@ -475,7 +475,7 @@ func (rc) Close() error { return nil }
 
 func readCloser(b []byte) rc { return rc{strings.NewReader(string(b))} }
 
-// ---- (c) xpkg build round trip ------------------------------------------------
+// ---- (d) signature gate end to end: the real signature-verification reconciler (real ImageConfigStore, scripted validator) and the real revision reconciler, 6 ImageConfig sets x validator verdict x one failing read (server error or 404) of the verification reconcile, three rounds: a package under verification that the validator rejects is never established. (c) xpkg build round trip ------------------------------------------------
 
 func buildBody(r *explore.Run, rep *report.R, sc string) {
 	kind := []string{"Provider", "Configuration", "Function"}[r.Free(3, "type")]
@@ -529,7 +529,7 @@ var _ = unstructured.Unstructured{}
 func TestCheck(t *testing.T) {
 	rep := report.New("C15", "fault_enumeration")
 	rep.Meta(
-		"(a) full product revision type x meta {Provider, Configuration, Function, none, two} x up to N objects over {CRD, CRD2, XRD, Composition, Validating/MutatingWebhookConfiguration} x image layout {annotated base, plain filesystem, two annotated layers, annotated + extra layer} x {no other files, well-formed decoy packages at examples/package.yaml (stored before), package.yaml.orig and zz/package.yaml (stored after) in the package layer} x crossplane constraint {none, met, unmet, malformed} x ignoreCrossplaneConstraints x signature gate {off, on+unset, on+False, on+True}; each case reconciled twice (registry path, then cache path) with a recording establisher; oracle: the table of contributing/specifications/xpkg.md and the gates of the statement. (b) every registry read-fault position (each 64 bytes and each YAML document boundary +-1, on the validation or the parse read; delivered as (0, err), as (n>0, err) with the last bytes, as an early clean EOF, or as (n>0, EOF)) and every single filesystem fault (create/open/stat/remove/write#k/read/close) of the package cache from 4 initial cache states, each followed by fault-free reconciles: no establisher call ever receives a set different from the image's. (c) xpkg build round trip for every allowed object subset. Non-trivial: packages with objects, faulted runs.",
+		"(a) full product revision type x meta {Provider, Configuration, Function, none, two} x up to N objects over {CRD, CRD2, XRD, Composition, Validating/MutatingWebhookConfiguration} x image layout {annotated base, plain filesystem, two annotated layers, annotated + extra layer} x {no other files, well-formed decoy packages at examples/package.yaml (stored before), package.yaml.orig and zz/package.yaml (stored after) in the package layer} x crossplane constraint {none, met, unmet, malformed} x ignoreCrossplaneConstraints x signature gate {off, on+unset, on+False, on+True}; each case reconciled twice (registry path, then cache path) with a recording establisher; oracle: the table of contributing/specifications/xpkg.md and the gates of the statement. (b) every registry read-fault position (each 64 bytes and each YAML document boundary +-1, on the validation or the parse read; delivered as (0, err), as (n>0, err) with the last bytes, as an early clean EOF, or as (n>0, EOF)) and every single filesystem fault (create/open/stat/remove/write#k/read/close) of the package cache from 4 initial cache states, each followed by fault-free reconciles: no establisher call ever receives a set different from the image's. (d) signature gate end to end: the real signature-verification reconciler (real ImageConfigStore, scripted validator) and the real revision reconciler, 6 ImageConfig sets x validator verdict x one failing read (server error or 404) of the verification reconcile, three rounds: a package under verification that the validator rejects is never established. (c) xpkg build round trip for every allowed object subset. Non-trivial: packages with objects, faulted runs.",
 		[]string{"simkube models the API server", "the establisher is a recorder (what reaches it is what would be installed); C16 covers the real establisher", "running Crossplane version is v1.20.0 (linked into the real version.Versioner)", "two reconciles of the same revision never run concurrently (controller-runtime work queue), so concurrent cache writers of one entry are not explored"},
 		[]string{"simkube", "go-containerregistry (images, layers, validate)", "afero memory filesystem"},
 	)
@@ -541,6 +541,7 @@ func TestCheck(t *testing.T) {
 	rep.Bound("fs_faults_per_history", 1)
 	scs := []report.Scenario{
 		{Name: "contents", Bound: 0, Wrap: report.Bubble(t), Body: func(r *explore.Run) { contentsBody(r, rep, "contents", maxObjs) }},
+		{Name: "signature-controller", Bound: 1, Wrap: report.Bubble(t), Body: func(r *explore.Run) { signatureBody(r, rep, "signature-controller") }},
 		{Name: "registry-read-fault", Bound: 0, Wrap: report.Bubble(t), Body: func(r *explore.Run) { registryFaultBody(r, rep, "registry-read-fault") }},
 		{Name: "cache-fs-fault", Bound: 1, Wrap: report.Bubble(t), Body: func(r *explore.Run) { cacheFaultBody(r, rep, "cache-fs-fault") }},
 		{Name: "build-roundtrip", Bound: 0, Wrap: report.Bubble(t), Body: func(r *explore.Run) { buildBody(r, rep, "build-roundtrip") }},
